@@ -303,13 +303,14 @@ type c04Spec struct {
 	Local   string    `json:"local"` // none valid stale corrupt
 	LocalSq int       `json:"local_seq,omitempty"`
 	LocalTg int       `json:"local_tag,omitempty"`
-	Plan    string    `json:"plan,omitempty"`          // name of the fixed tie scenario (empty: random case)
-	KeepCtx bool      `json:"keep_context,omitempty"`  // the caller's context stays alive after the call: background work must end by itself or at Close
-	Slow    bool      `json:"slow_consumer,omitempty"` // search: the caller reads the result channel only once nothing else moves
-	K       int       `json:"bucket_size,omitempty"`   // 0: 20
-	Resps   []c04Resp `json:"resps"`                   // responder i answers with Resps[i]
-	Node    string    `json:"node"`                    // pk: what the peer itself answers: correct wrongkey garbage miskeyed norec error
-	Choices []int     `json:"choices"`                 // schedule
+	Plan    string    `json:"plan,omitempty"`                    // name of the fixed tie scenario (empty: random case)
+	KeepCtx bool      `json:"keep_context,omitempty"`            // the caller's context stays alive after the call: background work must end by itself or at Close
+	Slow    bool      `json:"slow_consumer,omitempty"`           // search: the caller reads the result channel only once nothing else moves
+	K       int       `json:"bucket_size,omitempty"`             // 0: 20
+	HangFix bool      `json:"hanging_fixup_recipient,omitempty"` // the first corrective PUT_VALUE handed to the network is never answered while the others are
+	Resps   []c04Resp `json:"resps"`                             // responder i answers with Resps[i]
+	Node    string    `json:"node"`                              // pk: what the peer itself answers: correct wrongkey garbage miskeyed norec error
+	Choices []int     `json:"choices"`                           // schedule
 }
 
 func (r c04Resp) value() []byte {
@@ -450,6 +451,7 @@ type c04Run struct {
 	key    string // the key searched for
 	tags   map[string]bool
 	addrOf map[peer.ID]ma.Multiaddr
+	held   *c04Call // the corrective put that is never answered (spec.HangFix)
 }
 
 func c04DsKey(key string) ds.Key {
@@ -748,7 +750,10 @@ func (r *c04Run) run(t *testing.T) {
 		if finished() {
 			break
 		}
-		pend := r.gate.take()
+		pend := r.takeLive()
+		if r.holdFixup(pend) {
+			continue
+		}
 		if len(pend) == 0 {
 			if !consuming {
 				// everything waits for the caller to read the result channel: now it does
@@ -807,7 +812,11 @@ func (r *c04Run) run(t *testing.T) {
 	for i := 0; i < 50; i++ {
 		synctest.Wait()
 		n := 0
-		for _, c := range r.gate.take() {
+		pend := r.takeLive()
+		if r.holdFixup(pend) {
+			continue
+		}
+		for _, c := range pend {
 			if c.req.GetType() == pb.Message_PUT_VALUE {
 				r.noteFixup(c)
 				r.gate.release(c)
@@ -882,6 +891,37 @@ func (r *c04Run) run(t *testing.T) {
 		r.obs.Fail = "the operation did not return"
 	}
 	time.Sleep(30 * time.Second) // outstanding per-request timeouts
+}
+
+// takeLive: the parked calls the driver may release (the recipient that hangs on its corrective put stays parked)
+func (r *c04Run) takeLive() []*c04Call {
+	all := r.gate.take()
+	if r.held == nil {
+		return all
+	}
+	out := all[:0]
+	for _, c := range all {
+		if c != r.held {
+			out = append(out, c)
+		}
+	}
+	return out
+}
+
+// holdFixup: with spec.HangFix the first corrective PUT_VALUE that reaches the network is recorded and then never
+// answered (until the final clean-up); a hanging recipient must not keep the value from the others
+func (r *c04Run) holdFixup(pend []*c04Call) bool {
+	if !r.spec.HangFix || r.held != nil {
+		return false
+	}
+	for _, c := range pend {
+		if c.req.GetType() == pb.Message_PUT_VALUE {
+			r.noteFixup(c)
+			r.held = c
+			return true
+		}
+	}
+	return false
 }
 
 func (r *c04Run) noteFixup(c *c04Call) {
